@@ -11,6 +11,11 @@ def run(ctx):
         ctx.violation("accepted Sierra program declares drop/dup for a type that does not allow it: " + f["why"],
                       dict(f, replay_cmd="./check C15 --tier %s" % ctx.tier), found_input=True)
     ctx.cov["dup_drop_failures"] = len(dd)
+    for f in r.get("negatives_accepted", [])[:5]:
+        # every negative template violates one acceptance rule by construction (typing, linearity, merge, branch_align,
+        # frame state of locals): the real pipeline must reject it
+        ctx.violation("the real compiler accepts an invalid Sierra program (negative template %s)" % f["program"],
+                      dict(f, replay_cmd="./check C15 --tier %s" % ctx.tier), found_input=True)
     for m in r["model_rejects"][:5]:
         # the property's own formula: compile(s) == Ok  but the (proved sound) independent checker rejects s
         ctx.violation("the real compiler accepts Sierra programs that the verified typing/linearity checker rejects: %s"
@@ -28,7 +33,9 @@ def run(ctx):
         "compiler accepts - corpus programs and mutants - must be accepted by the model (the property's formula "
         "compile(s)=Ok => checker(s)=Ok). That drop/dup are specialised only for droppable/duplicatable types is not "
         "part of the Coq model; it is checked on every accepted program (corpus and mutants, incl. mutants that "
-        "re-type libfunc declarations) against the registry's TypeInfo.",
+        "re-type libfunc declarations) against the registry's TypeInfo. The frame-state rules of locals (where alloc_local / "
+        "finalize_locals are allowed) are not in the Coq model either: they are covered by negative templates, each of which "
+        "the real pipeline must reject.",
         sc.TRUSTED,
         "make coq/Sierra && coqc Props/C15.v ; harness/h15 <corpus> -> coqc out/C15/cases/acc_*.v",
     )
